@@ -476,6 +476,13 @@ pub fn exec(ctx: &mut Ctx, case: &GraphCase, spec: Spec, log_events: bool) -> Gr
         if !ok && expected_ok {
             problems.push(("false-failure".into(), format!("run failed on a correct acyclic project: {}", outcome.verdict.short())));
         }
+        // a failure that is *reported as a dependency cycle* although no requested file reaches one
+        // (e.g. a file that merely failed, with dependents still waiting for it)
+        if let Verdict::Err(m) = &outcome.verdict {
+            if !cyclic_req && m.contains("Circular dependenc") {
+                problems.push(("false-circular".into(), format!("the run reported a circular dependency although no requested file can reach a cycle (expected: {}): {}", if expected_ok { "success" } else { "the failure of the faulty file" }, outcome.verdict.short())));
+            }
+        }
         // bytes of every required file whose sequential build succeeds (all of them when expected_ok)
         if matches!(case.mode, Mode::Build | Mode::InMemoryBuild) && (ok || cyclic_req) && !(fail_req) {
             for i in 0..case.n {
